@@ -103,27 +103,60 @@ func checkPathsCase(res *Result, pc *pathsCase, T string, idx int) {
 	// the dump around them varies: 0 one goroutine; 1 plus a "created by" frame that repeats one of
 	// the frames; 2 plus a "created by" frame under none of the roots; 3 two goroutines, the first
 	// created from outside the roots.
-	variant := idx % 4
+	// 4 (in-domain layouts holding both kinds of frames): three goroutines - a first one elsewhere, one
+	// whose frames are all standard library, one with the user-code frames created from outside the
+	// roots - for the ordering contract (C13) end to end.
+	variant := idx % 5
 	const outside = "/zzz/elsewhere/spawn.go"
-	var sb strings.Builder
-	sb.WriteString("goroutine 1 [running]:\n")
-	split := len(pc.Frames)
-	if variant == 3 && len(pc.Frames) > 1 {
-		split = (len(pc.Frames) + 1) / 2
+	const elsewhere = "/zzz/elsewhere/main.go"
+	order := make([]int, len(pc.Frames)) // order[j]: which frame of the case the j-th printed frame is
+	for i := range order {
+		order[i] = i
 	}
-	createdCopy := -1
-	for i, f := range pc.Frames {
-		if i == split {
-			fmt.Fprintf(&sb, "created by example.com/zz.spawn\n\t%s:7 +0x1\n\ngoroutine 2 [running]:\n", outside)
+	var stdIdx, userIdx []int
+	for i := range pc.Frames {
+		switch pc.Locs[i].Class {
+		case "Stdlib":
+			stdIdx = append(stdIdx, i)
+		case "GoMod", "GOPATH", "GoPkg":
+			userIdx = append(userIdx, i)
 		}
-		fmt.Fprintf(&sb, "example.com/zz.f%d()\n\t%s:%d +0x1\n", i, atomsToPath(f, T), 10+i)
 	}
-	switch {
-	case variant == 1 && len(pc.Frames) > 0:
-		createdCopy = (idx / 4) % len(pc.Frames)
-		fmt.Fprintf(&sb, "created by example.com/zz.spawn\n\t%s:7 +0x1\n", atomsToPath(pc.Frames[createdCopy], T))
-	case variant == 2 || (variant == 3 && split == len(pc.Frames)):
+	if variant == 4 && !(pc.InDomain && len(stdIdx) > 0 && len(userIdx) > 0 && len(stdIdx)+len(userIdx) == len(pc.Frames)) {
+		variant = 0
+	}
+	var sb strings.Builder
+	createdCopy := -1
+	if variant == 4 {
+		order = append(append([]int{}, stdIdx...), userIdx...)
+		fmt.Fprintf(&sb, "goroutine 1 [running]:\nexample.com/zz.first()\n\t%s:5 +0x1\n\ngoroutine 2 [running]:\n", elsewhere)
+		for _, i := range stdIdx {
+			fmt.Fprintf(&sb, "example.com/zz.f%d()\n\t%s:%d +0x1\n", i, atomsToPath(pc.Frames[i], T), 10+i)
+		}
+		sb.WriteString("\ngoroutine 3 [running]:\n")
+		for _, i := range userIdx {
+			fmt.Fprintf(&sb, "example.com/zz.f%d()\n\t%s:%d +0x1\n", i, atomsToPath(pc.Frames[i], T), 10+i)
+		}
 		fmt.Fprintf(&sb, "created by example.com/zz.spawn\n\t%s:7 +0x1\n", outside)
+	} else {
+		sb.WriteString("goroutine 1 [running]:\n")
+		split := len(pc.Frames)
+		if variant == 3 && len(pc.Frames) > 1 {
+			split = (len(pc.Frames) + 1) / 2
+		}
+		for i, f := range pc.Frames {
+			if i == split {
+				fmt.Fprintf(&sb, "created by example.com/zz.spawn\n\t%s:7 +0x1\n\ngoroutine 2 [running]:\n", outside)
+			}
+			fmt.Fprintf(&sb, "example.com/zz.f%d()\n\t%s:%d +0x1\n", i, atomsToPath(f, T), 10+i)
+		}
+		switch {
+		case variant == 1 && len(pc.Frames) > 0:
+			createdCopy = (idx / 5) % len(pc.Frames)
+			fmt.Fprintf(&sb, "created by example.com/zz.spawn\n\t%s:7 +0x1\n", atomsToPath(pc.Frames[createdCopy], T))
+		case variant == 2 || (variant == 3 && split == len(pc.Frames)):
+			fmt.Fprintf(&sb, "created by example.com/zz.spawn\n\t%s:7 +0x1\n", outside)
+		}
 	}
 	opts := &stack.Opts{LocalGOROOT: T + "/G", LocalGOPATHs: []string{T + "/P", T + "/V"}, GuessPaths: true}
 	mk := func(prop, aspect, what string, exp, got interface{}) Finding {
@@ -149,7 +182,11 @@ func checkPathsCase(res *Result, pc *pathsCase, T string, idx int) {
 		ncalls := 0
 		if s != nil {
 			for _, g := range s.Goroutines {
-				ncalls += len(g.Stack.Calls)
+				for i := range g.Stack.Calls {
+					if g.Stack.Calls[i].RemoteSrcPath != elsewhere {
+						ncalls++
+					}
+				}
 			}
 		}
 		if s == nil || ncalls != len(pc.Frames) {
@@ -219,10 +256,23 @@ func checkPathsCase(res *Result, pc *pathsCase, T string, idx int) {
 		}
 	}
 	// each detected remote root prefixes a frame it explains (checked on the real values too)
+	if variant == 4 {
+		// C13 end to end: goroutine 3 holds module / GOPATH / module-cache code (by the layout), goroutine 2
+		// only standard library: 3's bucket is shown before 2's, after the first goroutine's
+		if a := safeAggregate(s); a == nil {
+			res.violation(mk("C13", "panic", "aggregating the located snapshot panicked", nil, nil))
+		} else if p1, p2, p3 := bucketPos(a, 1), bucketPos(a, 2), bucketPos(a, 3); p1 != 0 || p3 > p2 {
+			res.violation(mk("C13", "contract-located", fmt.Sprintf("buckets of goroutines 1 (first), 3 (user code per the layout) and 2 (standard library only) are shown at positions %d, %d, %d: a bucket whose frames are all standard library must come after every bucket with module, GOPATH or module-cache code", p1, p3, p2),
+				[]int{0, 1, 2}, []int{p1, p3, p2}))
+		}
+		res.count("located_order_checks", 1)
+	}
 	var calls []*stack.Call
 	for _, g := range s.Goroutines {
 		for i := range g.Stack.Calls {
-			calls = append(calls, &g.Stack.Calls[i])
+			if g.Stack.Calls[i].RemoteSrcPath != elsewhere {
+				calls = append(calls, &g.Stack.Calls[i])
+			}
 		}
 	}
 	// the frame a goroutine was created from is located with the same roots
@@ -256,7 +306,7 @@ func checkPathsCase(res *Result, pc *pathsCase, T string, idx int) {
 	}
 	for i := range calls {
 		c := calls[i]
-		l := &pc.Locs[i]
+		l := &pc.Locs[order[i]]
 		want := map[string]interface{}{"class": l.Class, "local": atomsToPath(l.Local, T), "rel": relPath(l.Rel)}
 		got := map[string]interface{}{"class": c.Location.String(), "local": c.LocalSrcPath, "rel": c.RelSrcPath, "import": c.ImportPath}
 		bad := c.Location != classLoc[l.Class] || c.LocalSrcPath != atomsToPath(l.Local, T) || c.RelSrcPath != relPath(l.Rel)
